@@ -11,6 +11,7 @@ pub fn registry() -> Vec<Box<dyn FamilyDyn>> {
         Box::new(FamRunner::new(crate::fam_sync::program_set)),
         Box::new(FamRunner::new(crate::fam_mpsc::program_set)),
         Box::new(FamRunner::new(crate::fam_thread::program_set)),
+        Box::new(FamRunner::new(crate::fam_sem::program_set)),
     ]
 }
 
@@ -70,6 +71,15 @@ pub fn run_e2(ctx: &CheckCtx, res: &mut CheckResult, items: &[(&str, &str, Mode)
             .map(|v| v.op_kinds.clone())
             .collect();
         for v in &agg.violations {
+            if let VKind::Known(name) = &v.kind {
+                // always reported (as a finding keyed by the recorded finding's name)
+                res.finding(
+                    format!("{}/known/{}", v.family, name),
+                    format!("{} — program #{} {}", v.what, v.program_idx, v.program),
+                    json!({"engine": "e2", "family": v.family, "set": set, "idx": v.program_idx, "program": v.program, "alts": v.alts}),
+                );
+                continue;
+            }
             if !wanted.contains(&v.kind) {
                 other += 1;
                 continue;
@@ -179,6 +189,7 @@ pub fn run_check(id: &str, tier: Tier) -> ! {
         "C04" => c04(&ctx),
         "C05" => c05(&ctx),
         "C07" => conformance(&ctx, &["thread"], &["thread-local life cycle is judged by a monitor over logged init/drop events (expected sequence computed from the program: lazy init on first use, destruction in initialisation order, a destructor touching a destroyed key sees AccessError, a key first touched during destruction is initialised then and destroyed later)"]),
+        "C18" => conformance(&ctx, &["sem"], &["reference model: counter + FIFO queue with grant-in-the-releasing-step (fair) / bag of waiters (unfair), Appendix A; the permit ledger avail + acquired + granted-pending = initial + released is asserted in every model state and the implementation's available_permits() must agree with it wherever a program observes it"]),
         "C06" => conformance(&ctx, &["mpsc"], &["reference model: FIFO channel with FIFO queue of blocked senders (Appendix A); rendezvous = hand-off only to a waiting receiver, as the property states"]),
         _ => {
             eprintln!("MACHINERY-ERROR: no check registered for {}", id);
